@@ -15,7 +15,10 @@ Inductive case :=
 | SlotCase (pre_ok : bool)             (* a retention update before the first deploy was answered without error / panic *)
            (runners : list N) (a : N) (first : list N) (r1 : list N)
            (late : list N) (rl : list N)      (* stale barriers of a that arrive AFTER the second deploy (observed results) *)
-           (b : N) (second : list N) (r2 : list N).
+           (b : N) (second : list N) (r2 : list N)
+(* a real operator with a counting handler: keyed events, complete checkpoints, redeployments in place (with the
+   checkpoint to restore, or none); observed per step: count given to the handler / id acked / 0 *)
+| StateCase (steps : list (sop * N)).
 
 Fixpoint list_eqb {A} (eqb : A -> A -> bool) (a b : list A) : bool :=
   match a, b with
@@ -242,12 +245,28 @@ Definition slot_check (runners : list N) (a : N) (first r1 late rl : list N) (b 
   | _ => if bad || incomplete then [103] else []
   end.
 
+(* the model of the keyed state IS the specification here: after HandleDeploy the state is exactly that of the checkpoint
+   the request names (empty if none). A wrong count after a redeployment is code 106; any other difference is code 9. *)
+Fixpoint state_steps (s : ost) (redeployed : bool) (l : list (sop * N)) : list N :=
+  match l with
+  | [] => []
+  | (o, b) :: t =>
+      let '(s1, m) := sstep s o in
+      let red := match o with SRedeploy _ => true | _ => redeployed end in
+      if m =? b then state_steps s1 red t
+      else match o with
+           | SEv _ => if redeployed then [106] else [9]
+           | _ => [9]
+           end
+  end.
+
 Definition check_case (c : case) : list N :=
   match c with
   | JobCase w dl steps =>
       diff_steps (MkCfg (N.to_nat w) dl current) init steps ++ spec_steps (N.to_nat w) dl sp0 steps
   | SlotCase pre_ok runners a first r1 late rl b second r2 =>
       (if pre_ok then [] else [104]) ++ slot_check runners a first r1 late rl b second r2
+  | StateCase steps => state_steps ost0 false steps
   end.
 
 Definition run (cases : list (N * case)) : list (N * N) :=
